@@ -24,6 +24,8 @@ pub struct Namer {
     /// the input had position-restricted siblings out of position order: the writer sorts them (documented
     /// normalisation), so the order of RECORD_LAYOUT.reserved is not part of the comparison
     pub reserved_order_free: bool,
+    /// an edit step found the library contradicting its own contract (reported by the caller)
+    pub edit_violation: Option<String>,
 }
 
 impl Namer {
@@ -300,6 +302,8 @@ pub fn apply_edit(cx: &mut Cx, nm: &mut Namer, file: &mut A2lFile) -> Option<Str
             // the whole-file operations of the public API are edits like any other: the result must save and reload
             let before: Vec<String> = file.project.module.iter().map(|m| m.get_name().to_string()).collect();
             file.sort();
+            // sort() and sort_new_items() put every list into the order in which it is written
+            nm.order_disturbed = false;
             let after: Vec<String> = file.project.module.iter().map(|m| m.get_name().to_string()).collect();
             cx.probe("edit:sort()");
             if before != after && file.project.module.iter().any(|m| m.a2ml.is_some()) {
@@ -321,12 +325,17 @@ pub fn apply_edit(cx: &mut Cx, nm: &mut Namer, file: &mut A2lFile) -> Option<Str
         }
         17 => {
             file.sort_new_items();
+            nm.order_disturbed = false;
             cx.probe("edit:sort_new_items()");
             Some("sort_new_items()".to_string())
         }
         13 => {
             // merge_includes() on a model without includes: must not change anything that is written or compared
+            let before = file.clone();
             file.merge_includes();
+            if *file != before {
+                nm.edit_violation = Some(format!("merge_includes() changed a model that has no includes: {}", model_diff(&before, file)));
+            }
             Some("merge_includes() on the whole file".to_string())
         }
         11 => {
@@ -525,6 +534,16 @@ pub fn apply_edit(cx: &mut Cx, nm: &mut Namer, file: &mut A2lFile) -> Option<Str
 }
 
 /// sort every MODULE-level list by name (for comparisons up to list order)
+fn has_floating_elements(file: &A2lFile) -> bool {
+    for m in &file.project.module {
+        macro_rules! any_floating {
+            ($($list:ident),*) => { $( if m.$list.iter().any(|e| e.get_layout().uid == 0 && e.get_layout().line > 0) { return true; } )* };
+        }
+        any_floating!(measurement, characteristic, compu_method, group, function, unit, record_layout, compu_vtab, axis_pts, compu_tab, compu_vtab_range, frame, instance, blob, transformer, typedef_axis, typedef_blob, typedef_characteristic, typedef_measurement, typedef_structure);
+    }
+    false
+}
+
 pub fn canonicalize_lists(file: &mut A2lFile) {
     for m in &mut file.project.module {
         macro_rules! canon {
@@ -737,7 +756,7 @@ impl Scenario for C01Cycles {
     fn run(&self, cx: &mut Cx) -> Result<(), Violation> {
         let fs = SimFs::new("/work", cx.tape.draw_u64());
         fs.install();
-        let mut nm = Namer { n: 0, modern: false, order_disturbed: false, reserved_order_free: false };
+        let mut nm = Namer { n: 0, modern: false, order_disturbed: false, reserved_order_free: false, edit_violation: None };
         let max_k = if cx.tier == Tier::Thorough { 16 } else { 6 };
         let k = 1 + cx.tape.draw(max_k);
         // entry: 0 = load_from_string, 1 = load_fragment, 2 = load(path), 3 = built through the API, 4 = load_fragment_file(path)
@@ -757,6 +776,10 @@ impl Scenario for C01Cycles {
         let strict = cx.tape.chance(1, 2) && entry != 1 && entry != 4;
         let mut feats = Features::default();
         let mut version_lie = false;
+        let same_path = cx.tape.chance(1, 2);
+        if same_path {
+            cx.probe("saves-over-the-same-file");
+        }
         // a built-in A2ML specification (the a2ml_spec argument) used for every load of this history: the document
         // then has no A2ML block of its own and its IF_DATA follows the built-in definition
         let builtin_def = if entry != 3 && cx.tape.chance(1, 5) { Some(crate::a2mlgen::gen_a2ml(&mut cx.tape)) } else { None };
@@ -818,6 +841,9 @@ impl Scenario for C01Cycles {
                     }
                     let mut g = DocGen::new(&mut cx.tape, opts);
                     g.a2ml_variant = builtin_def.clone();
+                    if !strict && g.t.chance(1, 12) {
+                        g.opts.unusable_a2ml = true;
+                    }
                     if !strict && g.t.chance(1, 10) {
                         // the header declares another version than the content was written for: non-strict loading
                         // accepts that with diagnostics, and what was accepted must save and reload
@@ -832,6 +858,9 @@ impl Scenario for C01Cycles {
                 feats = f;
                 if version_lie {
                     cx.probe("declared-version-differs-from-content");
+                }
+                if feats.unusable_a2ml {
+                    cx.probe("a2ml-block-without-usable-definition");
                 }
                 cx.event_lazy(if entry == 2 { "entry: load(/work/t0.a2l)" } else { "entry: load_from_string" }, || crate::runner::clip(&text, 3000));
                 let res = if entry == 2 {
@@ -884,8 +913,18 @@ impl Scenario for C01Cycles {
             let nedits = if cycle == 1 && entry != 3 { cx.tape.draw(2) } else { *cx.tape.pick(&[0u64, 0, 1, 3]) };
             for _ in 0..nedits {
                 cx.tape.begin_group();
+                // elements without position id that still carry the line of their source file (after reset_location or
+                // merge_modules, when sort_new_items found no placed element of their kind) are written *behind* a
+                // newly pushed element (line 0) although they stand in front of it in the list
+                let floating = has_floating_elements(&model);
                 let edit = apply_edit(cx, &mut nm, &mut model);
                 cx.tape.end_group();
+                if floating && edit.as_deref().is_some_and(|d| d.starts_with("push")) {
+                    nm.order_disturbed = true;
+                }
+                if let Some(msg) = nm.edit_violation.take() {
+                    return Err(cx.fail("O2", "merge_includes-changed-a-model-without-includes", format!("cycle {cycle}: {msg}")));
+                }
                 if let Some(desc) = edit {
                     cx.event(&format!("cycle {cycle}: {desc}"));
                     edited = true;
@@ -902,7 +941,8 @@ impl Scenario for C01Cycles {
                     return Err(cx.fail("O3", "text-not-a-fixpoint", format!("cycle {cycle}: writing the reloaded model gives a different text ({} vs {} bytes); first difference at {}", prev.len(), text.len(), sut::first_diff(prev, &text))));
                 }
             }
-            let path = format!("/work/save{cycle}.a2l");
+            // half of the histories save over the same file every time, as an editor does
+            let path = if same_path { "/work/save.a2l".to_string() } else { format!("/work/save{cycle}.a2l") };
             let mut reload_bytes: Option<Vec<u8>> = None;
             let mut banner_used = false;
             if use_files {
@@ -1274,7 +1314,7 @@ impl Scenario for C01HashOrder {
         let k1 = cx.tape.draw_u64();
         let build = move |render: bool, tier| {
             let mut sub = Cx::sub(crate::tape::Tape::from_seed(sub_seed), tier, render);
-            let mut nm = Namer { n: 0, modern: true, order_disturbed: false, reserved_order_free: false };
+            let mut nm = Namer { n: 0, modern: true, order_disturbed: false, reserved_order_free: false, edit_violation: None };
             let mut file = build_api_model(&mut sub, &mut nm);
             let (ifdata, ntags) = api_ifdata(&mut sub);
             file.project.module[0].if_data.push(ifdata);
